@@ -211,4 +211,919 @@ theorem keys_set_nodup {qs : Queues N} (r : N) (q : Queue) (h : (AMap.keys qs).N
 
 end Queues
 
+/-! ## 2. The steps of a cycle, in terms of `Util.get` -/
+
+/-! ### flush -/
+
+theorem flushOutputs_nil (u : Util N) : flushOutputs [] u = u := rfl
+
+theorem flushOutputs_cons (o : N) (outs : List N) (u : Util N) :
+    flushOutputs (o :: outs) u = flushOutputs outs (u.set o ((u.get o).filter (fun h => h.st == .D))) := rfl
+
+/-- exact content of every unit after the flush -/
+theorem flushOutputs_get (outs : List N) (u : Util N) (n : N) :
+    (flushOutputs outs u).get n = if n ∈ outs then (u.get n).filter (fun h => h.st == .D) else u.get n := by
+  induction outs generalizing u with
+  | nil => simp [flushOutputs_nil]
+  | cons o outs ih =>
+    rw [flushOutputs_cons, ih, Util.get_set]
+    by_cases h1 : o = n
+    · subst h1; simp [List.filter_filter]
+    · have h2 : ¬ n = o := fun e => h1 e.symm
+      simp [h1, h2]
+
+theorem flushOutputs_keys_nodup (outs : List N) {u : Util N} (h : (AMap.keys u).Nodup) :
+    (AMap.keys (flushOutputs outs u)).Nodup := by
+  induction outs generalizing u with
+  | nil => exact h
+  | cons o outs ih => rw [flushOutputs_cons]; exact ih (Util.keys_set_nodup _ _ h)
+
+theorem mem_keys_flushOutputs {outs : List N} {u : Util N} {n : N} :
+    n ∈ AMap.keys (flushOutputs outs u) ↔ n ∈ outs ∨ n ∈ AMap.keys u := by
+  induction outs generalizing u with
+  | nil => simp [flushOutputs_nil]
+  | cons o outs ih =>
+    rw [flushOutputs_cons, ih, Util.mem_keys_set, List.mem_cons]
+    constructor
+    · rintro (h | h | h)
+      · exact Or.inl (Or.inr h)
+      · exact Or.inl (Or.inl h)
+      · exact Or.inr h
+    · rintro ((h | h) | h)
+      · exact Or.inr (Or.inl h)
+      · exact Or.inl h
+      · exact Or.inr (Or.inr h)
+
+theorem flushOutputs_get_sublist (outs : List N) (u : Util N) (n : N) :
+    ((flushOutputs outs u).get n).Sublist (u.get n) := by
+  rw [flushOutputs_get]; split
+  · exact List.filter_sublist
+  · exact List.Sublist.refl _
+
+/-! ### the fill loop -/
+
+/-- The candidates the fill loop takes: `len` is the current content length of the destination, `mem` the memory
+flag. (`fillLoop_eq` shows that `fillLoop` appends exactly these.) -/
+def fillTaken (prog : List (Instr N)) (d : UnitM N) : List (N × Nat) → Nat → Bool → List (N × Nat)
+  | [], _, _ => []
+  | c :: cs, len, mem =>
+    if len = d.width then []
+    else if mem && capIn prog c.2 d.acl then fillTaken prog d cs len mem
+    else c :: fillTaken prog d cs (len + 1) (mem || capIn prog c.2 d.acl)
+
+/-- exact result of the fill loop -/
+theorem fillLoop_eq (prog : List (Instr N)) (d : UnitM N) (cs : List (N × Nat)) (cur : List HI) (mem : Bool)
+    (moved : List (N × Nat)) :
+    fillLoop prog d cs cur mem moved =
+      (cur ++ (fillTaken prog d cs cur.length mem).map (fun c => (⟨c.2, .U⟩ : HI)),
+       mem || (fillTaken prog d cs cur.length mem).any (fun c => capIn prog c.2 d.acl),
+       moved ++ fillTaken prog d cs cur.length mem) := by
+  induction cs generalizing cur mem moved with
+  | nil => simp [fillLoop, fillTaken]
+  | cons c cs ih =>
+    unfold fillLoop fillTaken
+    by_cases h1 : cur.length = d.width
+    · simp [h1]
+    · simp only [h1, if_false]
+      cases h2 : (mem && capIn prog c.2 d.acl)
+      · simp only [Bool.false_eq_true, if_false]
+        rw [ih (cur ++ [(⟨c.2, .U⟩ : HI)]) (mem || capIn prog c.2 d.acl) (moved ++ [c])]
+        simp [Bool.or_assoc]
+      · simp only [if_true]; exact ih cur mem moved
+
+theorem fillTaken_sublist (prog : List (Instr N)) (d : UnitM N) (cs : List (N × Nat)) (len : Nat) (mem : Bool) :
+    (fillTaken prog d cs len mem).Sublist cs := by
+  induction cs generalizing len mem with
+  | nil => simp [fillTaken]
+  | cons c cs ih =>
+    unfold fillTaken
+    split
+    · exact List.nil_sublist _
+    · split
+      · exact (ih len mem).cons _
+      · exact (ih _ _).cons_cons _
+
+/-- the loop never fills beyond the width (if it started within it) -/
+theorem fillTaken_length (prog : List (Instr N)) (d : UnitM N) (cs : List (N × Nat)) (len : Nat) (mem : Bool)
+    (h : len ≤ d.width) : len + (fillTaken prog d cs len mem).length ≤ d.width := by
+  induction cs generalizing len mem with
+  | nil => simpa [fillTaken] using h
+  | cons c cs ih =>
+    unfold fillTaken
+    split
+    · simpa using h
+    · next h1 =>
+      split
+      · exact ih len mem h
+      · have := ih (len + 1) (mem || capIn prog c.2 d.acl) (by omega)
+        simp only [List.length_cons]; omega
+
+/-- memory-flag accounting: (flag before) + (number of taken candidates that need memory) = (flag after), as
+numbers. Hence at most one taken candidate needs memory, and none if the flag was already set. -/
+theorem fillTaken_mem (prog : List (Instr N)) (d : UnitM N) (cs : List (N × Nat)) (len : Nat) (mem : Bool) :
+    mem.toNat + ((fillTaken prog d cs len mem).filter (fun c => capIn prog c.2 d.acl)).length =
+      (mem || (fillTaken prog d cs len mem).any (fun c => capIn prog c.2 d.acl)).toNat := by
+  induction cs generalizing len mem with
+  | nil => simp [fillTaken]
+  | cons c cs ih =>
+    unfold fillTaken
+    split
+    · simp
+    · split
+      · exact ih len mem
+      · next h2 =>
+        have := ih (len + 1) (mem || capIn prog c.2 d.acl)
+        simp only [List.filter_cons, List.any_cons]
+        cases hm : mem <;> cases hc : capIn prog c.2 d.acl <;> simp [hm, hc] at this h2 ⊢ <;> omega
+
+/-- why the loop stopped: the unit is full, or every candidate was taken or skipped because it needs the memory
+port, which was busy (and therefore is busy at the end) -/
+theorem fillTaken_stop (prog : List (Instr N)) (d : UnitM N) (cs : List (N × Nat)) (len : Nat) (mem : Bool) :
+    len + (fillTaken prog d cs len mem).length = d.width ∨
+    ∀ c ∈ cs, c ∈ fillTaken prog d cs len mem ∨
+      (capIn prog c.2 d.acl = true ∧
+        (mem || (fillTaken prog d cs len mem).any (fun c => capIn prog c.2 d.acl)) = true) := by
+  induction cs generalizing len mem with
+  | nil => right; simp
+  | cons c cs ih =>
+    unfold fillTaken
+    split
+    · next h => left; simpa using h
+    · split
+      · next h1 h2 =>
+        rcases ih len mem with h | h
+        · exact Or.inl h
+        · right
+          intro c' hc'
+          rcases List.mem_cons.1 hc' with e | e
+          · subst e
+            simp only [Bool.and_eq_true] at h2
+            exact Or.inr ⟨h2.2, by simp [h2.1]⟩
+          · exact h c' e
+      · next h1 h2 =>
+        rcases ih (len + 1) (mem || capIn prog c.2 d.acl) with h | h
+        · left; simp only [List.length_cons]; omega
+        · right
+          intro c' hc'
+          rcases List.mem_cons.1 hc' with e | e
+          · subst e; exact Or.inl List.mem_cons_self
+          · rcases h c' e with h' | h'
+            · exact Or.inl (List.mem_cons_of_mem _ h')
+            · refine Or.inr ⟨h'.1, ?_⟩
+              have := h'.2
+              simp only [List.any_cons, Bool.or_eq_true] at this ⊢
+              rcases this with (a | a) | a
+              · exact Or.inl a
+              · exact Or.inr (Or.inl a)
+              · exact Or.inr (Or.inr a)
+
+/-! ### removal of the moved instructions -/
+
+/-- exact content of every unit after `_clr_src_units` -/
+theorem removeMoved_get (u : Util N) (ms : List (N × Nat)) (n : N) :
+    (removeMoved u ms).get n = (u.get n).filter (fun x => !(ms.any (fun m => m.1 == n && m.2 == x.idx))) := by
+  induction ms generalizing u with
+  | nil =>
+    symm; apply List.filter_eq_self.2; intro x _; simp
+  | cons m ms ih =>
+    obtain ⟨h, i⟩ := m
+    unfold removeMoved
+    rw [ih, Util.get_set]
+    by_cases hn : h = n
+    · subst hn
+      simp only [if_true, List.filter_filter, List.any_cons, beq_self_eq_true, Bool.true_and]
+      apply List.filter_congr
+      intro x _
+      have e : (x.idx != i) = !(i == x.idx) := by
+        show (!(x.idx == i)) = !(i == x.idx)
+        rw [show (x.idx == i) = (i == x.idx) from BEq.comm]
+      rw [e]
+      cases (i == x.idx) <;> cases (ms.any fun m => m.1 == h && m.2 == x.idx) <;> rfl
+    · have hb : (h == n) = false := by simp [hn]
+      simp only [hn, if_false, List.any_cons, hb, Bool.false_and, Bool.false_or]
+
+theorem removeMoved_keys_nodup {u : Util N} (ms : List (N × Nat)) (h : (AMap.keys u).Nodup) :
+    (AMap.keys (removeMoved u ms)).Nodup := by
+  induction ms generalizing u with
+  | nil => exact h
+  | cons m ms ih =>
+    obtain ⟨a, i⟩ := m
+    unfold removeMoved
+    exact ih (Util.keys_set_nodup _ _ h)
+
+theorem mem_keys_removeMoved {u : Util N} {ms : List (N × Nat)} {n : N} :
+    n ∈ AMap.keys (removeMoved u ms) ↔ n ∈ ms.map (·.1) ∨ n ∈ AMap.keys u := by
+  induction ms generalizing u with
+  | nil => simp [removeMoved]
+  | cons m ms ih =>
+    obtain ⟨a, i⟩ := m
+    unfold removeMoved
+    rw [ih, Util.mem_keys_set, List.map_cons, List.mem_cons]
+    constructor
+    · rintro (h | h | h)
+      · exact Or.inl (Or.inr h)
+      · exact Or.inl (Or.inl h)
+      · exact Or.inr h
+    · rintro ((h | h) | h)
+      · exact Or.inr (Or.inl h)
+      · exact Or.inl h
+      · exact Or.inr (Or.inr h)
+
+theorem removeMoved_get_sublist (u : Util N) (ms : List (N × Nat)) (n : N) :
+    ((removeMoved u ms).get n).Sublist (u.get n) := by
+  rw [removeMoved_get]; exact List.filter_sublist
+
+/-! ### sorting (`isort`, `sortByKey`) -/
+
+theorem insertBy_perm {α : Type} (le : α → α → Bool) (x : α) (l : List α) : (insertBy le x l).Perm (x :: l) := by
+  induction l with
+  | nil => exact List.Perm.refl _
+  | cons y ys ih =>
+    unfold insertBy
+    split
+    · exact List.Perm.refl _
+    · exact ((List.Perm.cons y ih).trans (List.Perm.swap x y ys))
+
+theorem isort_perm {α : Type} (le : α → α → Bool) (l : List α) : (isort le l).Perm l := by
+  induction l with
+  | nil => exact List.Perm.refl _
+  | cons x xs ih => exact (insertBy_perm le x _).trans (List.Perm.cons x ih)
+
+theorem mem_isort {α : Type} {le : α → α → Bool} {l : List α} {a : α} : a ∈ isort le l ↔ a ∈ l :=
+  (isort_perm le l).mem_iff
+
+theorem sortByKey_perm {α : Type} (key : α → Nat) (l : List α) : (sortByKey key l).Perm l := isort_perm _ l
+
+theorem mem_sortByKey {α : Type} {key : α → Nat} {l : List α} {a : α} : a ∈ sortByKey key l ↔ a ∈ l :=
+  (sortByKey_perm key l).mem_iff
+
+theorem insertBy_key_sorted {α : Type} (key : α → Nat) (x : α) (l : List α)
+    (h : l.Pairwise (fun a b => key a ≤ key b)) :
+    (insertBy (fun a b => decide (key a ≤ key b)) x l).Pairwise (fun a b => key a ≤ key b) := by
+  induction l with
+  | nil => simp [insertBy]
+  | cons y ys ih =>
+    unfold insertBy
+    rw [List.pairwise_cons] at h
+    split
+    · next hxy =>
+      have hxy : key x ≤ key y := by simpa using hxy
+      refine List.pairwise_cons.2 ⟨?_, List.pairwise_cons.2 h⟩
+      intro z hz
+      rcases List.mem_cons.1 hz with e | e
+      · subst e; exact hxy
+      · exact Nat.le_trans hxy (h.1 z e)
+    · next hxy =>
+      have hxy : key y ≤ key x := by
+        have : ¬ key x ≤ key y := by simpa using hxy
+        omega
+      refine List.pairwise_cons.2 ⟨?_, ih h.2⟩
+      intro z hz
+      rcases List.mem_cons.1 ((insertBy_perm _ x ys).mem_iff.1 hz) with e | e
+      · subst e; exact hxy
+      · exact h.1 z e
+
+/-- `sortByKey` sorts -/
+theorem sortByKey_sorted {α : Type} (key : α → Nat) (l : List α) :
+    (sortByKey key l).Pairwise (fun a b => key a ≤ key b) := by
+  induction l with
+  | nil => simp [sortByKey, isort]
+  | cons x xs ih => exact insertBy_key_sorted key x _ ih
+
+/-! ### candidates -/
+
+theorem mem_candsOf {prog : List (Instr N)} {d : UnitM N} {u : Util N} {host : N} {c : N × Nat} :
+    c ∈ candsOf prog d u host ↔ c.1 = host ∧ ∃ h ∈ u.get host, validCand prog d h = true ∧ h.idx = c.2 := by
+  obtain ⟨a, i⟩ := c
+  simp only [candsOf, List.mem_map, List.mem_filter, Prod.mk.injEq]
+  constructor
+  · rintro ⟨h, ⟨hm, hv⟩, rfl, rfl⟩; exact ⟨rfl, h, hm, hv, rfl⟩
+  · rintro ⟨rfl, h, hm, hv, rfl⟩; exact ⟨h, ⟨hm, hv⟩, rfl, rfl⟩
+
+theorem candidates_perm (prog : List (Instr N)) (d : FuncU N) (u : Util N) :
+    (candidates prog d u).Perm (d.preds.flatMap (candsOf prog d.model u)) := sortByKey_perm _ _
+
+/-- a candidate is a non-`D` instruction of a predecessor whose capability the destination supports -/
+theorem mem_candidates {prog : List (Instr N)} {d : FuncU N} {u : Util N} {c : N × Nat} :
+    c ∈ candidates prog d u ↔
+      c.1 ∈ d.preds ∧ ∃ h ∈ u.get c.1, validCand prog d.model h = true ∧ h.idx = c.2 := by
+  rw [(candidates_perm prog d u).mem_iff, List.mem_flatMap]
+  constructor
+  · rintro ⟨host, hh, hc⟩
+    have := mem_candsOf.1 hc
+    rw [this.1]; exact ⟨hh, this.2⟩
+  · rintro ⟨hh, hc⟩
+    exact ⟨c.1, hh, mem_candsOf.2 ⟨rfl, hc⟩⟩
+
+/-- candidates are tried oldest first -/
+theorem candidates_sorted (prog : List (Instr N)) (d : FuncU N) (u : Util N) :
+    (candidates prog d u).Pairwise (fun a b => a.2 ≤ b.2) := sortByKey_sorted _ _
+
+/-! ### filling one destination -/
+
+/-- the `(host, index)` pairs destination `d` takes from record `u` when the memory flag is `mem` -/
+def unitTaken (prog : List (Instr N)) (d : FuncU N) (u : Util N) (mem : Bool) : List (N × Nat) :=
+  fillTaken prog d.model (candidates prog d u) (u.get d.model.name).length mem
+
+theorem fillUnit_fst (prog : List (Instr N)) (d : FuncU N) (u : Util N) (mem : Bool) :
+    (fillUnit prog d u mem).1 =
+      removeMoved (u.set d.model.name
+        (u.get d.model.name ++ (unitTaken prog d u mem).map (fun c => (⟨c.2, .U⟩ : HI)))) (unitTaken prog d u mem) := by
+  simp [fillUnit, fillLoop_eq, unitTaken]
+
+/-- the memory flag after filling `d` -/
+theorem fillUnit_snd (prog : List (Instr N)) (d : FuncU N) (u : Util N) (mem : Bool) :
+    (fillUnit prog d u mem).2 = (mem || (unitTaken prog d u mem).any (fun c => capIn prog c.2 d.model.acl)) := by
+  simp [fillUnit, fillLoop_eq, unitTaken]
+
+/-- exact content of every unit after filling `d` -/
+theorem fillUnit_get (prog : List (Instr N)) (d : FuncU N) (u : Util N) (mem : Bool) (n : N) :
+    (fillUnit prog d u mem).1.get n =
+      (if d.model.name = n then u.get n ++ (unitTaken prog d u mem).map (fun c => (⟨c.2, .U⟩ : HI)) else u.get n).filter
+        (fun x => !((unitTaken prog d u mem).any (fun m => m.1 == n && m.2 == x.idx))) := by
+  rw [fillUnit_fst, removeMoved_get, Util.get_set]
+  by_cases h : d.model.name = n
+  · subst h; simp
+  · simp [h]
+
+theorem mem_unitTaken {prog : List (Instr N)} {d : FuncU N} {u : Util N} {mem : Bool} {c : N × Nat}
+    (h : c ∈ unitTaken prog d u mem) :
+    c.1 ∈ d.preds ∧ ∃ x ∈ u.get c.1, validCand prog d.model x = true ∧ x.idx = c.2 :=
+  mem_candidates.1 ((fillTaken_sublist _ _ _ _ _).subset h)
+
+theorem unitTaken_sublist (prog : List (Instr N)) (d : FuncU N) (u : Util N) (mem : Bool) :
+    (unitTaken prog d u mem).Sublist (candidates prog d u) := fillTaken_sublist _ _ _ _ _
+
+/-- a unit other than `d` only loses instructions -/
+theorem fillUnit_get_of_ne (prog : List (Instr N)) (d : FuncU N) (u : Util N) (mem : Bool) {n : N}
+    (h : d.model.name ≠ n) :
+    (fillUnit prog d u mem).1.get n =
+      (u.get n).filter (fun x => !((unitTaken prog d u mem).any (fun m => m.1 == n && m.2 == x.idx))) := by
+  rw [fillUnit_get]; simp [h]
+
+/-- a destination that is not its own predecessor keeps its content and gets the taken candidates appended -/
+theorem fillUnit_get_self (prog : List (Instr N)) (d : FuncU N) (u : Util N) (mem : Bool)
+    (h : d.model.name ∉ d.preds) :
+    (fillUnit prog d u mem).1.get d.model.name =
+      u.get d.model.name ++ (unitTaken prog d u mem).map (fun c => (⟨c.2, .U⟩ : HI)) := by
+  rw [fillUnit_get]
+  simp only [if_true]
+  apply List.filter_eq_self.2
+  intro x _
+  simp only [Bool.not_eq_true', List.any_eq_false, Bool.and_eq_true, beq_iff_eq, not_and]
+  intro c hc e
+  exact absurd (e ▸ (mem_unitTaken hc).1) h
+
+/-- in every unit, the new content is a sub-list of the old content plus (for `d`) the taken candidates -/
+theorem fillUnit_get_sublist (prog : List (Instr N)) (d : FuncU N) (u : Util N) (mem : Bool) (n : N) :
+    ((fillUnit prog d u mem).1.get n).Sublist
+      (if d.model.name = n then u.get n ++ (unitTaken prog d u mem).map (fun c => (⟨c.2, .U⟩ : HI)) else u.get n) := by
+  rw [fillUnit_get]; exact List.filter_sublist
+
+theorem fillUnit_keys_nodup (prog : List (Instr N)) (d : FuncU N) {u : Util N} (mem : Bool)
+    (h : (AMap.keys u).Nodup) : (AMap.keys (fillUnit prog d u mem).1).Nodup := by
+  rw [fillUnit_fst]; exact removeMoved_keys_nodup _ (Util.keys_set_nodup _ _ h)
+
+theorem mem_keys_fillUnit {prog : List (Instr N)} {d : FuncU N} {u : Util N} {mem : Bool} {n : N}
+    (h : n ∈ AMap.keys (fillUnit prog d u mem).1) : n = d.model.name ∨ n ∈ d.preds ∨ n ∈ AMap.keys u := by
+  rw [fillUnit_fst, mem_keys_removeMoved, Util.mem_keys_set] at h
+  rcases h with h | h | h
+  · obtain ⟨c, hc, rfl⟩ := List.mem_map.1 h
+    exact Or.inr (Or.inl (mem_unitTaken hc).1)
+  · exact Or.inl h
+  · exact Or.inr (Or.inr h)
+
+/-- the unit never exceeds its width by filling -/
+theorem fillUnit_length_self (prog : List (Instr N)) (d : FuncU N) (u : Util N) (mem : Bool)
+    (h : (u.get d.model.name).length ≤ d.model.width) :
+    ((fillUnit prog d u mem).1.get d.model.name).length ≤ d.model.width := by
+  have h1 := (fillUnit_get_sublist prog d u mem d.model.name).length_le
+  simp only [if_true, List.length_append, List.length_map] at h1
+  have h2 := fillTaken_length prog d.model (candidates prog d u) _ mem h
+  unfold unitTaken at h1
+  omega
+
+/-- memory accounting for one destination -/
+theorem fillUnit_mem (prog : List (Instr N)) (d : FuncU N) (u : Util N) (mem : Bool) :
+    mem.toNat + ((unitTaken prog d u mem).filter (fun c => capIn prog c.2 d.model.acl)).length =
+      (fillUnit prog d u mem).2.toNat := by
+  rw [fillUnit_snd]; exact fillTaken_mem _ _ _ _ _
+
+/-! ### filling all destinations -/
+
+/-- invariant principle for `fillDests` -/
+theorem fillDests_induction (prog : List (Instr N)) (P : Util N → Bool → Prop) (ds : List (FuncU N))
+    (hstep : ∀ d ∈ ds, ∀ u mem, P u mem → P (fillUnit prog d u mem).1 (fillUnit prog d u mem).2)
+    (u : Util N) (mem : Bool) (h : P u mem) :
+    P (fillDests prog ds u mem).1 (fillDests prog ds u mem).2 := by
+  induction ds generalizing u mem with
+  | nil => exact h
+  | cons d ds ih =>
+    unfold fillDests
+    exact ih (fun d' hd' => hstep d' (List.mem_cons_of_mem _ hd')) _ _ (hstep d List.mem_cons_self u mem h)
+
+/-- invariant principle for `moveFlights`: holds after the flush (memory flag `false`), preserved by every
+destination -/
+theorem moveFlights_induction (p : Proc N) (prog : List (Instr N)) (P : Util N → Bool → Prop) (u : Util N)
+    (h0 : P (flushOutputs p.outBoundary u) false)
+    (hstep : ∀ d ∈ p.dests, ∀ u mem, P u mem → P (fillUnit prog d u mem).1 (fillUnit prog d u mem).2) :
+    P (moveFlights p prog u).1 (moveFlights p prog u).2 :=
+  fillDests_induction prog P p.dests hstep _ _ h0
+
+/-! ### issue -/
+
+/-- a port is usable for capability `cap` -/
+def portUsable (cap : N) (u : Util N) (mem : Bool) (port : UnitM N) : Prop :=
+  cap ∈ port.caps ∧ (mem && decide (cap ∈ port.acl)) = false ∧ (u.get port.name).length ≠ port.width
+
+/-- `tryPorts` picks the first usable port, appends the instruction there and updates the memory flag -/
+theorem tryPorts_eq_some {cap : N} {i : Nat} {ports : List (UnitM N)} {u : Util N} {mem : Bool}
+    {r : Util N × Bool} (h : tryPorts cap i ports u mem = some r) :
+    ∃ pre port post, ports = pre ++ port :: post ∧ portUsable cap u mem port ∧
+      (∀ q ∈ pre, ¬ portUsable cap u mem q) ∧
+      r = (u.set port.name (u.get port.name ++ [⟨i, .U⟩]), mem || decide (cap ∈ port.acl)) := by
+  induction ports with
+  | nil => simp [tryPorts] at h
+  | cons q qs ih =>
+    unfold tryPorts at h
+    by_cases h1 : cap ∈ q.caps
+    · simp only [h1, if_true] at h
+      by_cases h2 : ((mem && decide (cap ∈ q.acl)) || decide ((u.get q.name).length = q.width)) = true
+      · have h2' := h2
+        simp only [Bool.or_eq_true, decide_eq_true_eq] at h2'
+        rw [if_pos h2] at h
+        obtain ⟨pre, port, post, e, hu, hpre, hr⟩ := ih h
+        refine ⟨q :: pre, port, post, by simp [e], hu, ?_, hr⟩
+        intro q' hq'
+        rcases List.mem_cons.1 hq' with e' | e'
+        · subst e'
+          rintro ⟨_, a, b⟩
+          rcases h2' with c | c
+          · rw [a] at c; cases c
+          · exact b c
+        · exact hpre q' e'
+      · have h2' := h2
+        simp only [Bool.or_eq_true, decide_eq_true_eq, not_or, Bool.not_eq_true] at h2'
+        rw [if_neg h2] at h
+        refine ⟨[], q, qs, rfl, ⟨h1, h2'.1, h2'.2⟩, by simp, ?_⟩
+        simpa using h.symm
+    · simp only [h1, if_false] at h
+      obtain ⟨pre, port, post, e, hu, hpre, hr⟩ := ih h
+      refine ⟨q :: pre, port, post, by simp [e], hu, ?_, hr⟩
+      intro q' hq'
+      rcases List.mem_cons.1 hq' with e' | e'
+      · subst e'; exact fun hq => h1 hq.1
+      · exact hpre q' e'
+
+theorem tryPorts_eq_none_iff {cap : N} {i : Nat} {ports : List (UnitM N)} {u : Util N} {mem : Bool} :
+    tryPorts cap i ports u mem = none ↔ ∀ q ∈ ports, ¬ portUsable cap u mem q := by
+  induction ports with
+  | nil => simp [tryPorts]
+  | cons q qs ih =>
+    unfold tryPorts
+    by_cases h1 : cap ∈ q.caps
+    · simp only [h1, if_true]
+      by_cases h2b : ((mem && decide (cap ∈ q.acl)) || decide ((u.get q.name).length = q.width)) = true
+      · have h2 : (mem && decide (cap ∈ q.acl)) = true ∨ (u.get q.name).length = q.width := by
+          simpa only [Bool.or_eq_true, decide_eq_true_eq] using h2b
+        rw [if_pos h2b, ih]
+        constructor
+        · intro h q' hq'
+          rcases List.mem_cons.1 hq' with e' | e'
+          · subst e'
+            rintro ⟨_, a, b⟩
+            rcases h2 with c | c
+            · rw [a] at c; cases c
+            · exact b c
+          · exact h q' e'
+        · intro h q' hq'; exact h q' (List.mem_cons_of_mem _ hq')
+      · have h2 : ¬ ((mem && decide (cap ∈ q.acl)) = true ∨ (u.get q.name).length = q.width) := by
+          simpa only [Bool.or_eq_true, decide_eq_true_eq] using h2b
+        rw [if_neg h2b]
+        simp only [reduceCtorEq, false_iff]
+        intro h
+        apply h q List.mem_cons_self
+        simp only [not_or, Bool.not_eq_true] at h2
+        exact ⟨h1, h2.1, h2.2⟩
+    · simp only [h1, if_false, ih]
+      constructor
+      · intro h q' hq'
+        rcases List.mem_cons.1 hq' with e' | e'
+        · subst e'; exact fun hq => h1 hq.1
+        · exact h q' e'
+      · intro h q' hq'; exact h q' (List.mem_cons_of_mem _ hq')
+
+theorem issueLoop_entered_ge (ports : List (UnitM N)) (l : List (Instr N)) (u : Util N) (mem : Bool) (e : Nat) :
+    e ≤ (issueLoop ports l u mem e).2 := by
+  induction l generalizing u mem e with
+  | nil => simp [issueLoop]
+  | cons ins rest ih =>
+    unfold issueLoop
+    cases tryPorts ins.cap e ports u mem with
+    | none => simp
+    | some r => have := ih r.1 r.2 (e + 1); simp only; omega
+
+/-- `entered` grows by at most the number of instructions offered -/
+theorem issueLoop_entered_le (ports : List (UnitM N)) (l : List (Instr N)) (u : Util N) (mem : Bool) (e : Nat) :
+    (issueLoop ports l u mem e).2 ≤ e + l.length := by
+  induction l generalizing u mem e with
+  | nil => simp [issueLoop]
+  | cons ins rest ih =>
+    unfold issueLoop
+    cases tryPorts ins.cap e ports u mem with
+    | none => simp
+    | some r => have := ih r.1 r.2 (e + 1); simp only [List.length_cons]; omega
+
+theorem issueLoop_drop_entered_le (ports : List (UnitM N)) (prog : List (Instr N)) (u : Util N) (mem : Bool)
+    (e : Nat) (h : e ≤ prog.length) : (issueLoop ports (prog.drop e) u mem e).2 ≤ prog.length := by
+  have := issueLoop_entered_le ports (prog.drop e) u mem e
+  simp only [List.length_drop] at this
+  omega
+
+theorem drop_eq_cons {α : Type} {l : List α} {e : Nat} {a : α} {rest : List α} (h : l.drop e = a :: rest) :
+    l[e]? = some a ∧ l.drop (e + 1) = rest := by
+  have hlt : e < l.length := by
+    by_cases hlt : e < l.length
+    · exact hlt
+    · rw [List.drop_eq_nil_of_le (by omega)] at h; cases h
+  rw [List.drop_eq_getElem_cons hlt] at h
+  injection h with h1 h2
+  exact ⟨by rw [List.getElem?_eq_getElem hlt, h1], h2⟩
+
+/-- Invariant principle for the issue loop run on `prog.drop e`: `P` is preserved by every single issue (of
+instruction `e = prog[e]` into the first usable port); at the end either the program is exhausted or no port takes
+the next instruction. -/
+theorem issueLoop_induction (prog : List (Instr N)) (ports : List (UnitM N)) (P : Util N → Bool → Nat → Prop)
+    (hstep : ∀ u mem e ins pre port post, P u mem e → prog[e]? = some ins → ports = pre ++ port :: post →
+      portUsable ins.cap u mem port → (∀ q ∈ pre, ¬ portUsable ins.cap u mem q) →
+      P (u.set port.name (u.get port.name ++ [⟨e, .U⟩])) (mem || decide (ins.cap ∈ port.acl)) (e + 1))
+    (u : Util N) (mem : Bool) (e : Nat) (h : P u mem e) :
+    ∃ mem', P (issueLoop ports (prog.drop e) u mem e).1 mem' (issueLoop ports (prog.drop e) u mem e).2 ∧
+      ∀ ins, prog[(issueLoop ports (prog.drop e) u mem e).2]? = some ins →
+        tryPorts ins.cap (issueLoop ports (prog.drop e) u mem e).2 ports
+          (issueLoop ports (prog.drop e) u mem e).1 mem' = none := by
+  generalize hl : prog.drop e = l
+  induction l generalizing u mem e with
+  | nil =>
+    refine ⟨mem, h, ?_⟩
+    intro ins hins
+    simp only [issueLoop] at hins
+    have : prog.length ≤ e := List.drop_eq_nil_iff.1 hl
+    rw [List.getElem?_eq_none this] at hins; cases hins
+  | cons ins rest ih =>
+    obtain ⟨hins, hrest⟩ := drop_eq_cons hl
+    unfold issueLoop
+    cases ht : tryPorts ins.cap e ports u mem with
+    | none =>
+      refine ⟨mem, h, ?_⟩
+      intro ins' hins'
+      simp only at hins'
+      rw [hins] at hins'; cases hins'
+      exact ht
+    | some r =>
+      obtain ⟨pre, port, post, hp, hu, hpre, hr⟩ := tryPorts_eq_some ht
+      subst hr
+      exact ih _ _ (e + 1) (hstep u mem e ins pre port post h hins hp hu hpre) hrest
+
+/-! ### labels -/
+
+/-- the label instruction `i` gets in `unit` (when labelling succeeds): `S` iff it was loaded there in the previous
+cycle, else `U`/`D` by the queue test -/
+def labelOf (prog : List (Instr N)) (qs : Queues N) (unit : UnitM N) (old : List HI) (i : Nat) : Stall :=
+  if wasLoaded old i then .S
+  else match prog[i]? with
+    | none => .D
+    | some ins =>
+      match regsAvail qs unit i ins with
+      | .ok (some _) => .U
+      | _ => .D
+
+/-- the dequeues instruction `i` requests in `unit` -/
+def clearsOf (prog : List (Instr N)) (qs : Queues N) (unit : UnitM N) (old : List HI) (i : Nat) : List (N × Nat) :=
+  if wasLoaded old i then []
+  else match prog[i]? with
+    | none => []
+    | some ins =>
+      match regsAvail qs unit i ins with
+      | .ok (some regs) => regs.map (fun x => (x, i))
+      | _ => []
+
+theorem labelOf_eq_S_iff (prog : List (Instr N)) (qs : Queues N) (unit : UnitM N) (old : List HI) (i : Nat) :
+    labelOf prog qs unit old i = .S ↔ wasLoaded old i = true := by
+  unfold labelOf
+  split
+  · simp [*]
+  · next h =>
+    simp only [h]
+    split
+    · simp
+    · split <;> simp
+
+/-- on success `labelList` keeps the instructions and their order; the labels are `labelOf`, the requested clears
+`clearsOf` -/
+theorem labelList_ok {prog : List (Instr N)} {qs : Queues N} {unit : UnitM N} {old l : List HI}
+    {r : List HI × List (N × Nat)} (h : labelList prog qs unit old l = .ok r) :
+    r.1 = l.map (fun x => (⟨x.idx, labelOf prog qs unit old x.idx⟩ : HI)) ∧
+    r.2 = l.flatMap (fun x => clearsOf prog qs unit old x.idx) := by
+  induction l generalizing r with
+  | nil => simp only [labelList] at h; cases h; simp
+  | cons x xs ih =>
+    cases hrec : labelList prog qs unit old xs with
+    | error f =>
+      unfold labelList at h
+      simp only [hrec] at h
+      split at h
+      · cases h
+      · split at h
+        · cases h
+        · split at h <;> cases h
+    | ok r' =>
+      obtain ⟨ih1, ih2⟩ := ih hrec
+      by_cases hw : wasLoaded old x.idx = true
+      · simp only [labelList, hw, if_true, hrec] at h
+        cases h
+        simp [labelOf, clearsOf, hw, ih1, ih2]
+      · cases hp : prog[x.idx]? with
+        | none => simp only [labelList, hw, hp] at h; cases h
+        | some ins =>
+          cases hr : regsAvail qs unit x.idx ins with
+          | error f => simp only [labelList, hw, hp, hr] at h; cases h
+          | ok o =>
+            cases o with
+            | none =>
+              simp only [labelList, hw, hp, hr, hrec] at h
+              cases h
+              simp [labelOf, clearsOf, hw, hp, hr, ih1, ih2]
+            | some regs =>
+              simp only [labelList, hw, hp, hr, hrec] at h
+              cases h
+              simp [labelOf, clearsOf, hw, hp, hr, ih1, ih2]
+
+theorem labelList_idx {prog : List (Instr N)} {qs : Queues N} {unit : UnitM N} {old l : List HI}
+    {r : List HI × List (N × Nat)} (h : labelList prog qs unit old l = .ok r) :
+    r.1.map (·.idx) = l.map (·.idx) := by
+  rw [(labelList_ok h).1, List.map_map]; rfl
+
+theorem labelList_length {prog : List (Instr N)} {qs : Queues N} {unit : UnitM N} {old l : List HI}
+    {r : List HI × List (N × Nat)} (h : labelList prog qs unit old l = .ok r) : r.1.length = l.length := by
+  rw [(labelList_ok h).1, List.length_map]
+
+/-- label `S` iff the instruction was loaded in this unit in the previous cycle -/
+theorem labelList_S_iff {prog : List (Instr N)} {qs : Queues N} {unit : UnitM N} {old l : List HI}
+    {r : List HI × List (N × Nat)} (h : labelList prog qs unit old l = .ok r) {x : HI} (hx : x ∈ r.1) :
+    x.st = .S ↔ wasLoaded old x.idx = true := by
+  rw [(labelList_ok h).1] at hx
+  obtain ⟨y, _, rfl⟩ := List.mem_map.1 hx
+  exact labelOf_eq_S_iff _ _ _ _ _
+
+/-! ### `lookupUnit` -/
+
+theorem lookupUnit_some {us : List (UnitM N)} {n : N} {v : UnitM N} (h : lookupUnit us n = some v) :
+    v ∈ us ∧ v.name = n := by
+  induction us with
+  | nil => cases h
+  | cons u us ih =>
+    unfold lookupUnit at h
+    cases hl : lookupUnit us n with
+    | some w =>
+      simp only [hl] at h; cases h
+      exact ⟨List.mem_cons_of_mem _ (ih hl).1, (ih hl).2⟩
+    | none =>
+      simp only [hl] at h
+      by_cases e : u.name = n
+      · simp only [e, if_true] at h; cases h; exact ⟨List.mem_cons_self, e⟩
+      · simp [e] at h
+
+theorem lookupUnit_eq_none_iff {us : List (UnitM N)} {n : N} : lookupUnit us n = none ↔ n ∉ us.map (·.name) := by
+  induction us with
+  | nil => simp [lookupUnit]
+  | cons u us ih =>
+    unfold lookupUnit
+    cases hl : lookupUnit us n with
+    | some w =>
+      have := (lookupUnit_some hl)
+      simp only [reduceCtorEq, List.map_cons, List.mem_cons, not_or, false_iff, not_and, Classical.not_not]
+      intro _
+      exact List.mem_map.2 ⟨w, this.1, this.2⟩
+    | none =>
+      have hn := ih.1 hl
+      by_cases e : u.name = n
+      · simp [e]
+      · have e' : ¬ n = u.name := fun x => e x.symm
+        simp [e, e', hn]
+
+/-- with unique names, `lookupUnit` finds the unit of that name -/
+theorem lookupUnit_of_mem {us : List (UnitM N)} {v : UnitM N} (hn : (us.map (·.name)).Nodup) (hv : v ∈ us) :
+    lookupUnit us v.name = some v := by
+  induction us with
+  | nil => cases hv
+  | cons u us ih =>
+    simp only [List.map_cons, List.nodup_cons] at hn
+    unfold lookupUnit
+    rcases List.mem_cons.1 hv with e | e
+    · subst e
+      rw [lookupUnit_eq_none_iff.2 hn.1]; simp
+    · rw [ih hn.2 e]
+
+/-- two units of the same name in a list with unique names are equal -/
+theorem unit_eq_of_name_eq {us : List (UnitM N)} (hn : (us.map (·.name)).Nodup) {a b : UnitM N}
+    (ha : a ∈ us) (hb : b ∈ us) (h : a.name = b.name) : a = b := by
+  have h1 := lookupUnit_of_mem hn ha
+  have h2 := lookupUnit_of_mem hn hb
+  rw [h, h2] at h1
+  exact (Option.some.inj h1).symm
+
+/-! ### `labelAll` -/
+
+theorem labelAll_nil (units : List (UnitM N)) (prog : List (Instr N)) (qs : Queues N) (old : Util N) :
+    labelAll units prog qs old ([] : List (N × List HI)) = .ok (([] : List (N × List HI)), []) := rfl
+
+/-- unfolding of a successful `labelAll` on a non-empty record -/
+theorem labelAll_cons_ok {units : List (UnitM N)} {prog : List (Instr N)} {qs : Queues N} {old : Util N}
+    {n : N} {l : List HI} {rest : List (N × List HI)} {r : Util N × List (N × Nat)}
+    (h : labelAll units prog qs old ((n, l) :: rest : List (N × List HI)) = .ok r) :
+    ∃ r', labelAll units prog qs old rest = .ok r' ∧
+      ((l = [] ∧ r = (((n, []) :: r'.1 : List (N × List HI)), r'.2)) ∨
+       (l ≠ [] ∧ ∃ unit rl, lookupUnit units n = some unit ∧ labelList prog qs unit (old.get n) l = .ok rl ∧
+          r = (((n, rl.1) :: r'.1 : List (N × List HI)), rl.2 ++ r'.2))) := by
+  unfold labelAll at h
+  by_cases he : l.isEmpty = true
+  · simp only [he, if_true] at h
+    cases hrec : labelAll units prog qs old rest with
+    | error f => simp only [hrec] at h; cases h
+    | ok r' =>
+      simp only [hrec] at h; cases h
+      exact ⟨r', rfl, Or.inl ⟨List.isEmpty_iff.1 he, rfl⟩⟩
+  · simp only [he] at h
+    have hne : l ≠ [] := fun e => he (List.isEmpty_iff.2 e)
+    cases hl : lookupUnit units n with
+    | none => simp only [hl] at h; cases h
+    | some unit =>
+      simp only [hl] at h
+      cases hll : labelList prog qs unit (old.get n) l with
+      | error f => simp only [hll] at h; cases h
+      | ok rl =>
+        simp only [hll] at h
+        cases hrec : labelAll units prog qs old rest with
+        | error f => simp only [hrec] at h; cases h
+        | ok r' =>
+          simp only [hrec] at h; cases h
+          exact ⟨r', rfl, Or.inr ⟨hne, unit, rl, rfl, hll, rfl⟩⟩
+
+/-- relabelling keeps the keys -/
+theorem labelAll_keys {units : List (UnitM N)} {prog : List (Instr N)} {qs : Queues N} {old u : Util N}
+    {r : Util N × List (N × Nat)} (h : labelAll units prog qs old u = .ok r) : AMap.keys r.1 = AMap.keys u := by
+  induction u generalizing r with
+  | nil => rw [labelAll_nil] at h; cases h; rfl
+  | cons e rest ih =>
+    obtain ⟨n, l⟩ := e
+    obtain ⟨r', hr', hcase⟩ := labelAll_cons_ok h
+    rcases hcase with ⟨_, rfl⟩ | ⟨_, unit, rl, _, _, rfl⟩
+    · simp [ih hr']
+    · simp [ih hr']
+
+/-- exact content of every unit after relabelling: same instructions in the same order, labels `labelOf` w.r.t. the
+unit found by `lookupUnit` and the unit's content in the previous record -/
+theorem labelAll_get {units : List (UnitM N)} {prog : List (Instr N)} {qs : Queues N} {old u : Util N}
+    {r : Util N × List (N × Nat)} (h : labelAll units prog qs old u = .ok r) (n : N) :
+    (u.get n = [] → r.1.get n = []) ∧
+    (u.get n ≠ [] → ∃ unit, lookupUnit units n = some unit ∧
+      r.1.get n = (u.get n).map (fun x => (⟨x.idx, labelOf prog qs unit (old.get n) x.idx⟩ : HI))) := by
+  induction u generalizing r with
+  | nil => rw [labelAll_nil] at h; cases h; simp
+  | cons e rest ih =>
+    obtain ⟨k, l⟩ := e
+    obtain ⟨r', hr', hcase⟩ := labelAll_cons_ok h
+    have ih' := ih hr'
+    rcases hcase with ⟨hl, rfl⟩ | ⟨hl, unit, rl, hlu, hll, rfl⟩
+    · subst hl
+      simp only [Util.get_cons]
+      by_cases hk : k = n
+      · simp [hk]
+      · simpa [hk] using ih'
+    · simp only [Util.get_cons]
+      by_cases hk : k = n
+      · subst hk
+        simp only [if_true]
+        exact ⟨fun e => absurd e hl, fun _ => ⟨unit, hlu, (labelList_ok hll).1⟩⟩
+      · simpa [hk] using ih'
+
+/-- relabelling keeps, per unit, the hosted program indices in the same order -/
+theorem labelAll_get_idx {units : List (UnitM N)} {prog : List (Instr N)} {qs : Queues N} {old u : Util N}
+    {r : Util N × List (N × Nat)} (h : labelAll units prog qs old u = .ok r) (n : N) :
+    (r.1.get n).map (·.idx) = (u.get n).map (·.idx) := by
+  have := labelAll_get h n
+  by_cases hn : u.get n = []
+  · rw [this.1 hn, hn]
+  · obtain ⟨unit, _, e⟩ := this.2 hn
+    rw [e, List.map_map]; rfl
+
+theorem labelAll_get_length {units : List (UnitM N)} {prog : List (Instr N)} {qs : Queues N} {old u : Util N}
+    {r : Util N × List (N × Nat)} (h : labelAll units prog qs old u = .ok r) (n : N) :
+    (r.1.get n).length = (u.get n).length := by
+  have := congrArg List.length (labelAll_get_idx h n)
+  simpa using this
+
+/-- a hosted instruction is labelled `S` iff it was in the same unit, not `D`, in the previous record -/
+theorem labelAll_S_iff {units : List (UnitM N)} {prog : List (Instr N)} {qs : Queues N} {old u : Util N}
+    {r : Util N × List (N × Nat)} (h : labelAll units prog qs old u = .ok r) {n : N} {x : HI}
+    (hx : x ∈ r.1.get n) : x.st = .S ↔ wasLoaded (old.get n) x.idx = true := by
+  have := labelAll_get h n
+  by_cases hn : u.get n = []
+  · rw [this.1 hn] at hx; cases hx
+  · obtain ⟨unit, _, e⟩ := this.2 hn
+    rw [e] at hx
+    obtain ⟨y, _, rfl⟩ := List.mem_map.1 hx
+    exact labelOf_eq_S_iff _ _ _ _ _
+
+/-! ### the cycle -/
+
+variable [LT N] [DecidableRel (α := N) (· < ·)]
+
+omit [DecidableEq N] in
+theorem mem_sortedInputs {p : Proc N} {m : UnitM N} : m ∈ sortedInputs p ↔ m ∈ p.inBoundary := mem_isort
+
+omit [DecidableEq N] [LT N] [DecidableRel (α := N) (· < ·)] in
+theorem mem_allUnits_of_mem_inBoundary {p : Proc N} {m : UnitM N} (h : m ∈ p.inBoundary) : m ∈ p.allUnits := by
+  simp only [Proc.inBoundary, List.mem_append] at h
+  simp only [Proc.allUnits, List.mem_append]
+  rcases h with h | h
+  · exact Or.inl (Or.inl (Or.inr h))
+  · exact Or.inl (Or.inl (Or.inl h))
+
+omit [DecidableEq N] [LT N] [DecidableRel (α := N) (· < ·)] in
+theorem model_mem_allUnits_of_mem_dests {p : Proc N} {d : FuncU N} (h : d ∈ p.dests) : d.model ∈ p.allUnits := by
+  simp only [Proc.dests, List.mem_append] at h
+  simp only [Proc.allUnits, List.mem_append, List.mem_map]
+  rcases h with h | h
+  · exact Or.inl (Or.inr ⟨d, h, rfl⟩)
+  · exact Or.inr ⟨d, h, rfl⟩
+
+/-- Invariant principle for the fill phase of a cycle (`fillCycle` = flush, fill the destinations, issue): `P`
+holds after the flush with the memory flag clear, is preserved by filling any destination and by any single issue
+into a usable input-boundary port. -/
+theorem fillCycle_induction (p : Proc N) (prog : List (Instr N)) (P : Util N → Bool → Nat → Prop)
+    (old : Util N) (e : Nat)
+    (h0 : P (flushOutputs p.outBoundary old) false e)
+    (hfill : ∀ d ∈ p.dests, ∀ u mem, P u mem e → P (fillUnit prog d u mem).1 (fillUnit prog d u mem).2 e)
+    (hissue : ∀ u mem e' ins port, P u mem e' → prog[e']? = some ins → port ∈ p.inBoundary →
+      portUsable ins.cap u mem port →
+      P (u.set port.name (u.get port.name ++ [⟨e', .U⟩])) (mem || decide (ins.cap ∈ port.acl)) (e' + 1)) :
+    ∃ mem', P (fillCycle p prog old e).1 mem' (fillCycle p prog old e).2 := by
+  have h1 := moveFlights_induction p prog (fun u mem => P u mem e) old h0 hfill
+  obtain ⟨mem', h2, _⟩ := issueLoop_induction prog (sortedInputs p) P
+    (fun u mem e' ins pre port post hP hins hports hu _ =>
+      hissue u mem e' ins port hP hins
+        (mem_sortedInputs.1 (by rw [hports]; simp)) hu)
+    _ _ e h1
+  exact ⟨mem', h2⟩
+
+theorem fillCycle_entered_ge (p : Proc N) (prog : List (Instr N)) (old : Util N) (e : Nat) :
+    e ≤ (fillCycle p prog old e).2 := issueLoop_entered_ge _ _ _ _ _
+
+theorem fillCycle_entered_le (p : Proc N) (prog : List (Instr N)) (old : Util N) (e : Nat) (h : e ≤ prog.length) :
+    (fillCycle p prog old e).2 ≤ prog.length := issueLoop_drop_entered_le _ _ _ _ _ h
+
+/-- `applyClears` works on the queues only: a successful cycle records exactly the relabelled record -/
+theorem runCycle_eq_some {p : Proc N} {prog : List (Instr N)} {s s' : SimState N}
+    (h : runCycle p prog s = .ok (some s')) :
+    ∃ lab qs, labelAll p.allUnits prog s.queues s.util (fillCycle p prog s.util s.entered).1 = .ok lab ∧
+      applyClears s.queues lab.2 = .ok qs ∧ Util.beq lab.1 s.util = false ∧
+      s' = { util := lab.1, queues := qs, entered := (fillCycle p prog s.util s.entered).2,
+             exited := s.exited + countOut p.outBoundary lab.1, table := lab.1 :: s.table } := by
+  unfold runCycle at h
+  simp only at h
+  cases hl : labelAll p.allUnits prog s.queues s.util (fillCycle p prog s.util s.entered).1 with
+  | error f => simp only [hl] at h; cases h
+  | ok lab =>
+    simp only [hl] at h
+    cases hc : applyClears s.queues lab.2 with
+    | error f => simp only [hc] at h; cases h
+    | ok qs =>
+      simp only [hc] at h
+      cases hb : Util.beq lab.1 s.util with
+      | true => simp [hb] at h
+      | false =>
+        simp only [hb, Bool.false_eq_true, if_false] at h
+        injection h with h; injection h with h
+        exact ⟨lab, qs, rfl, hc, hb, h.symm⟩
+
+theorem runCycle_eq_none {p : Proc N} {prog : List (Instr N)} {s : SimState N}
+    (h : runCycle p prog s = .ok none) :
+    ∃ lab qs, labelAll p.allUnits prog s.queues s.util (fillCycle p prog s.util s.entered).1 = .ok lab ∧
+      applyClears s.queues lab.2 = .ok qs ∧ Util.beq lab.1 s.util = true := by
+  unfold runCycle at h
+  simp only at h
+  cases hl : labelAll p.allUnits prog s.queues s.util (fillCycle p prog s.util s.entered).1 with
+  | error f => simp only [hl] at h; cases h
+  | ok lab =>
+    simp only [hl] at h
+    cases hc : applyClears s.queues lab.2 with
+    | error f => simp only [hc] at h; cases h
+    | ok qs =>
+      simp only [hc] at h
+      cases hb : Util.beq lab.1 s.util with
+      | true => exact ⟨lab, qs, rfl, hc, hb⟩
+      | false => simp [hb] at h
+
 end ProcSim
